@@ -44,6 +44,25 @@ ghost('mt_elem', ['mg', 'x0', 'y0', 'w', 'h', 'z', 'm'], """
     else (x0 + m % w, mt_y(mg, y0, h, m // w), z)""")
 ghost('mt_y', ['mg', 'y0', 'h', 'r'], "(y0 + r) if mg.grid.flipped_y_axis else (y0 + h - 1 - r)")
 
+def _list_bounded_by_the_grid(ex, st, post, result):
+    """the cells of the meta tile are filtered against the size of the GRID at that level (cells beyond it are None), not
+    against any other rectangle"""
+    import z3
+    from pyvc.values import eq
+    from pyvc import tracelib as T
+    evs = [e for i, e in T.evs(st, '_create_tile_list')]
+    ok = len(evs) == 1 and len(evs[0].args) == 4 and not evs[0].kwargs
+    goal = z3.BoolVal(bool(ok))
+    if ok:
+        sp = st.fork()
+        sp.spec = True
+        sp.env = {'self': post.env['self'], 'main_tile': post.env['main_tile']}
+        goal = z3.And(goal, eq(evs[0].args[3], ex.ev1(sp, ex.reg.parse_spec('self.grid.grid_sizes[main_tile[2]]'))),
+                      eq(evs[0].args[2], ex.ev1(sp, ex.reg.parse_spec('main_tile[2]'))))
+    yield ('cells_filtered_against_the_grid_size_of_the_level', goal,
+           '_create_tile_list is called once, with the level of the main tile and self.grid.grid_sizes[level] as the bound')
+
+
 contract(G + 'MetaGrid._meta_tile_list', props=['C04', 'C08', 'C16'],
          types=dict(main_tile='tuple[int,int,int]', tile_grid='tuple[int,int]'),
          returns='list[opt[tuple[int,int,int]]]',
@@ -58,6 +77,7 @@ contract(G + 'MetaGrid._meta_tile_list', props=['C04', 'C08', 'C16'],
              """forall(lambda m: implies(0 <= m < len(result) and result[m] is not None,
                     0 <= result[m][0] < self.grid.grid_sizes[main_tile[2]][0]
                     and 0 <= result[m][1] < self.grid.grid_sizes[main_tile[2]][1] and result[m][2] == main_tile[2]))"""],
+         trace=[_list_bounded_by_the_grid],
          must_fail='len(result) == 1')
 
 contract(G + 'MetaGrid.tile_list', props=['C04', 'C08'],
